@@ -17,6 +17,7 @@ import common as C
 import sim
 
 ID = 'C11'
+CASE_TIMEOUT = 60   # per-case wall-clock limit of the driver's hang detection
 COQ_TARGETS = ['theories/Props/C11.vo', 'theories/Tls/InterceptCases.vo']
 IMPORTS = 'From PM Require Import Lib.Bytes Lib.PyStr Tls.Intercept Tls.InterceptCases.'
 CASE_TYPE = 'case'
